@@ -40,9 +40,10 @@ def _fields(t):
 
 
 def _new(a):
+    # core.build: by keyword, and for every seventh case of a stream positionally in the documented order
     service, subservice, apid, seq, source_id, ack = a[0]
-    return PusTc(service=service, subservice=subservice, apid=apid, app_data=bytes(a[1]), seq_count=seq,
-                 source_id=source_id, ack_flags=ack)
+    return core.build(PusTc, service=service, subservice=subservice, apid=apid, app_data=bytes(a[1]), seq_count=seq,
+                      source_id=source_id, ack_flags=ack)
 
 
 def impl(op, a):
@@ -60,6 +61,8 @@ def impl(op, a):
         t = _new(a); raw = t.pack(); u = PusTc.unpack(bytes(raw))
         return [[int((u == t) and (t == u))]] + _fields(u)
     if op == 506:
+        if sum(a[0]) % 3 == 0:
+            return [[int(check_pus_crc(tc_packet=bytes(a[0])))]]
         return [[int(check_pus_crc(bytes(a[0])))]]
     if op == 507:
         t = _new(a); t.app_data = bytes(a[2]); raw = t.pack(); return [list(raw), [t.packet_len]]
@@ -81,6 +84,14 @@ def impl(op, a):
         sp = t.to_space_packet().pack()
         raw = t.pack()
         return [list(sp), list(raw), [t.packet_len]]
+    if op == 513:
+        # decode from a buffer that may continue behind the packet, then EVERY observable of the decoded object
+        u = PusTc.unpack(bytes(a[0]))
+        first = _fields(u)
+        p1 = u.pack(recalc_crc=False)          # "CRC previously calculated and no fields changed"
+        p2 = u.pack()
+        w = PusTc.unpack(bytes(a[0][:u.packet_len]))
+        return first + [list(p1), list(p2), [int(u == w), int(w == u)]] + _fields(u)
     if op == 520:
         return _hist(a)
     raise RuntimeError("bad op")
@@ -99,9 +110,9 @@ def _enum(cls, v):
 
 
 def _mk_sph(ptype, apid, count, dlen, shf, flags, version):
-    return SpacePacketHeader(packet_type=_enum(PacketType, ptype), apid=apid, seq_count=count, data_len=dlen,
-                             sec_header_flag=bool(shf) if shf in (0, 1) else shf, seq_flags=_enum(SequenceFlags, flags),
-                             ccsds_version=version)
+    return core.build(SpacePacketHeader, packet_type=_enum(PacketType, ptype), apid=apid, seq_count=count, data_len=dlen,
+                      sec_header_flag=bool(shf) if shf in (0, 1) else shf, seq_flags=_enum(SequenceFlags, flags),
+                      ccsds_version=version)
 
 
 class _Owned:
@@ -137,20 +148,26 @@ class _Owned:
         return sum(1 for b, snap in getattr(self, "out", []) if bytes(b) != snap)
 
 
+def _sec_hdr(service, subservice, source_id, ack):
+    return core.build(PusTcDataFieldHeader, service=service, subservice=subservice, source_id=source_id, ack_flags=ack)
+
+
 def _make(p, app, owned):
     path, service, subservice, apid, count, source_id, ack, kind, ptype, shf, flags, version, dlen = p
     if path == 0:
-        return PusTc(service=service, subservice=subservice, apid=apid, app_data=owned.give(app, kind), seq_count=count,
-                     source_id=source_id, ack_flags=ack)
+        return core.build(PusTc, service=service, subservice=subservice, apid=apid, app_data=owned.give(app, kind),
+                          seq_count=count, source_id=source_id, ack_flags=ack)
     if path == 1:
         h = _mk_sph(ptype, apid, count, dlen, shf, flags, version)
-        return PusTc.from_sp_header(h, service, subservice, owned.give(app, kind), source_id, ack)
+        return core.build(PusTc.from_sp_header, sp_header=h, service=service, subservice=subservice,
+                          app_data=owned.give(app, kind), source_id=source_id, ack_flags=ack)
     if path == 2:
         h = _mk_sph(ptype, apid, count, dlen, shf, flags, version)
-        return PusTc.from_composite_fields(h, PusTcDataFieldHeader(service, subservice, source_id, ack), owned.give(app, kind))
+        return core.build(PusTc.from_composite_fields, sp_header=h, sec_header=_sec_hdr(service, subservice, source_id, ack),
+                          app_data=owned.give(app, kind))
     if path == 3:
-        raw = PusTc(service=service, subservice=subservice, apid=apid, app_data=bytes(app), seq_count=count,
-                    source_id=source_id, ack_flags=ack).pack()
+        raw = core.build(PusTc, service=service, subservice=subservice, apid=apid, app_data=bytes(app), seq_count=count,
+                         source_id=source_id, ack_flags=ack).pack()
         buf = bytes(raw) if kind == 0 else bytearray(raw)
         t = PusTc.unpack(buf)
         if kind != 0:
@@ -231,7 +248,7 @@ def _hist_op(st, o, owned):
         t.app_data = cur
         return []
     if k == 23: t.sp_header = _mk_sph(*o[1:8]); return []
-    if k == 24: t.pus_tc_sec_header = PusTcDataFieldHeader(o[1], o[2], o[3], o[4]); return []
+    if k == 24: t.pus_tc_sec_header = _sec_hdr(o[1], o[2], o[3], o[4]); return []
     if k == 25: return [[int(t == st["t0"]), int(st["t0"] == t)]]
     if k == 26:
         raw = t.pack(); u = PusTc.unpack(bytes(raw)); return [[int(u == t)]] + _fields(u)
@@ -802,6 +819,51 @@ def hardening_streams(tier, rng):
         base = _hist_params(rng, path=0, kind=1, n=2)
         cases.append((520, base + [[9] + [0xFF] * n, [7], [10, 1, 2], [8]]))
     yield "live_object_size_sweep", "exact", cases
+    yield "crc_value_coincidences", "exact", crc_coincidence_cases(rng, big)
+    yield "decode_with_suffix_every_observable", "exact", suffix_observable_cases(rng, big)
+
+
+# G. value coincidences of DERIVED quantities: telecommands SEARCHED (pus_common.tc_crc_coincidences) such that the CRC
+#    over the primary header / over every octet boundary up to the end of the secondary header / over blocks of the
+#    application data / over the whole packet is 0x0000 or 0xFFFF - pushed through every serialisation route
+COINCIDENCE_ROUTES = [[2], [8], [1], [7], [8], [1], [2], [1]]     # calc_crc, crc16, pack(recalc_crc=False), view, ...
+
+
+def crc_coincidence_cases(rng, big):
+    cases = []
+    found = pc.tc_crc_coincidences(rng, lens=(0, 1, 2, 3, 7, 40, 1100) + ((300, 600, 4200) if big else ()))
+    if big:
+        found += pc.tc_crc_coincidences(rng, targets=(0x0001, 0x8000, 0x00FF, 0xFF00, 0x1021, 0x1D0F), lens=(0, 2, 9))
+    for a, p, t in found:
+        for op in (501, 504, 505, 509):
+            cases.append((op, a))
+        n = len(a[1])
+        cases.append((510, a + [[2], [1]]))
+        for path, kind in ((0, 1), (3, 0), (1, 0)):
+            base = [[path] + a[0] + [kind, 1, 1, 3, 0, n + 6], a[1]]
+            cases.append((520, base + [list(o) for o in COINCIDENCE_ROUTES]))
+        pkt = _layout_fast(*a[0], a[1])
+        cases.append((502, [pkt])); cases.append((506, [pkt])); cases.append((513, [pkt + pc.rbytes(rng, rng.choice([0, 2, 5]))]))
+    return cases
+
+
+# H. a valid packet followed by further octets (fill octets of a frame, the next packet): the decoded object must be
+#    the same in every observable as when decoded from exactly its own octets
+def suffix_observable_cases(rng, big):
+    cases = []
+    pkts = valid_packets(rng, 120 if big else 40)
+    for n in (0, 1, 2, 250, 251, 505, 506, 1100) + ((4096, 65529) if big else ()):
+        pkts.append(_layout_fast(17, 1, rng.randrange(2048), rng.randrange(16384), rng.randrange(65536), 15, pc.rbytes(rng, n)))
+    for target in (0x0000, 0xFFFF, 0x00FF, 0xFF00):
+        f = pc.rand_tc_args(rng, 1)[0]
+        pkts.append(_layout_fast(*f, _force_crc(f, pc.rbytes(rng, 6), target)))
+    for i, pkt in enumerate(pkts):
+        other = pkts[(i + 1) % len(pkts)]
+        sufs = [[], [rng.randrange(256)], [0, 0], [0xFF, 0xFF], pc.rbytes(rng, 2), [0x55] * 7, list(other), list(pkt),
+                list(pkt[-2:]), pc.rbytes(rng, rng.choice([3, 16, 300]))]
+        for sfx in (sufs if big or len(pkt) < 300 else sufs[:5]):
+            cases.append((513, [pkt + sfx]))
+    return cases
 
 
 def _layout_fast(service, subservice, apid, seq, source_id, ack, app):
@@ -883,6 +945,36 @@ def oracle(case, ires, sres):
         if ires[3] != b[11:n - 2] or ires[2] != [b[7], b[8], b[9] * 256 + b[10], b[6] & 15] or ires[5] != [n]:
             return ("C02/PusTc.unpack/fields", "decoded %s from %s" % (ires[1:4], b[:20]))
         return None
+    if op == 513:
+        b = a[0]
+        n = b[4] * 256 + b[5] + 7 if len(b) >= 6 else None
+        valid = n is not None and 13 <= n <= len(b) and b[6] >> 4 == 2 and fcrc(b[:n]) == 0
+        if err:
+            if code in (20, 21, 22, 23, 24, 25, 99):
+                return ("C02/PusTc.unpack/undocumented-error", "%s on %s" % (ires, b[:16]))
+            if valid:
+                return ("C02/PusTc.unpack/valid-refused", "a valid telecommand followed by %d further octets is refused: %s" % (len(b) - n, ires))
+            return None
+        if n < 13 or len(b) < n or fcrc(b[:n]) != 0:
+            return ("C02/PusTc.unpack/accepts-invalid", "accepted although short or CRC wrong: %s" % (b[:20],))
+        unit = b[:n]
+        where = "telecommand of %d octets decoded from a buffer of %d octets (%s behind it)" % (n, len(b), b[n:n + 8])
+        if ires[4] != [1] + unit[-2:]:
+            return ("C02/PusTc.unpack/crc16-not-the-trailer", "%s: crc16 reads %s, the packet's trailer is %s" % (where, ires[4], unit[-2:]))
+        if ires[5] != [n]:
+            return ("C02/PusTc.packet_len", "%s: packet_len %s" % (where, ires[5]))
+        if ires[3] != b[11:n - 2] or ires[2] != [b[7], b[8], b[9] * 256 + b[10], b[6] & 15]:
+            return ("C02/PusTc.unpack/fields", "%s: decoded %s" % (where, ires[1:4]))
+        if ires[6] != unit:
+            return ("C02/PusTc.unpack-pack/recalc-false-differs", "%s: pack(recalc_crc=False) gives ... %s, the accepted octets end in %s" % (
+                where, ires[6][-4:], unit[-4:]))
+        if ires[7] != unit:
+            return ("C02/PusTc.unpack-pack/roundtrip", "%s: re-pack ... %s != accepted octets ... %s" % (where, ires[7][-4:], unit[-4:]))
+        if ires[8] != [1, 1]:
+            return ("C02/PusTc.unpack/suffix-changes-equality", "%s: not equal to the telecommand decoded from exactly its octets: %s" % (where, ires[8]))
+        if ires[9:14] != ires[1:6]:
+            return ("C02/PusTc.pack/changes-decoded-object", "%s: fields after the two packs %s, before %s" % (where, ires[9:14], ires[1:6]))
+        return None
     if op == 503:
         b = a[0]
         if not err:
@@ -937,4 +1029,8 @@ DECODERS = [
     {"op": 508, "name": "PusTcDataFieldHeader.unpack", "extra": [],
      "valid": lambda rng: [p[6:11] for p in valid_packets(rng, 10)], "declared_len": lambda b: 5},
     {"op": 506, "name": "check_pus_crc", "extra": [], "valid": lambda rng: valid_packets(rng, 10), "declared_len": None},
+    # every observable of the decoded object (crc16, pack with and without recalculation, equality), see op 513
+    {"op": 513, "name": "PusTc.unpack+views", "extra": [], "valid": lambda rng: valid_packets(rng, 16),
+     "declared_len": lambda b: b[4] * 256 + b[5] + 7, "crc": "pus"},
 ]
+DECODERS[0]["crc"] = "pus"
